@@ -86,13 +86,14 @@ ValComplete == /\ fut = "run" /\ tag = "val" /\ off >= need
 Want    == IF tag = "len" THEN 4 - Len(lenbuf) ELSE need - off
 Reading == fut = "run" /\ ((tag = "len" /\ Len(lenbuf) < 4) \/ (tag = "val" /\ off < need))
 Min(a, b) == IF a < b THEN a ELSE b
-Deliver == /\ Reading /\ Avail > 0
-           /\ \E k \in 1..Min(Want, Avail) :
-                LET got == SubSeq(Stream, rd + 1, rd + k) IN
-                /\ rd' = rd + k /\ Log([a |-> "deliver", k |-> k])
-                /\ IF tag = "len" THEN lenbuf' = lenbuf \o got /\ UNCHANGED <<off, buf>>
-                   ELSE buf' = buf \o got /\ off' = off + k /\ UNCHANGED lenbuf
-           /\ npend' = 0 /\ UNCHANGED <<cut, tag, need, fut, out, nerr, nreads>>
+\* (DeliverK(k): the action for a given k - what a recorded event binds)
+DeliverK(k) == /\ Reading /\ Avail > 0 /\ k \in 1..Min(Want, Avail)
+               /\ LET got == SubSeq(Stream, rd + 1, rd + k) IN
+                  /\ rd' = rd + k /\ Log([a |-> "deliver", k |-> k])
+                  /\ IF tag = "len" THEN lenbuf' = lenbuf \o got /\ UNCHANGED <<off, buf>>
+                     ELSE buf' = buf \o got /\ off' = off + k /\ UNCHANGED lenbuf
+               /\ npend' = 0 /\ UNCHANGED <<cut, tag, need, fut, out, nerr, nreads>>
+Deliver == \E k \in 1..Min(Want, Avail) : DeliverK(k)
 Eof     == /\ Reading /\ Avail = 0 /\ Log([a |-> "eof", k |-> 0])
            /\ Ret(IF tag = "len" /\ Len(lenbuf) = 0 THEN <<"end">> ELSE <<"unexpected_eof">>)
            /\ UNCHANGED <<tag, lenbuf, need, off, buf, rd, npend, nerr, nreads>>
